@@ -14,6 +14,10 @@ as it does on the real tree.
                    instead `x is not None` <-> `not x is None` style: `a is not None` -> `not (a is None)`
   T5 temp-return   `return <expr>` -> `result_ = <expr>; return result_` (non-trivial expressions)
   T7 comp-alpha    renaming of comprehension variables inside their comprehension
+  T8 loop->comp    `acc = []; for x in it: if c: acc.append(e)` -> list comprehension
+  T9 return-else   `if c: return X` + rest -> `if c: return X else: rest`
+  T10 flatten-else the inverse of T9
+  T11 ifexp->stmt  `x = a if c else b` -> if/else statement
   T6 aug-extend    `xs.extend(ys)` statement -> `xs += ys` for a local list initialised with `[]` / a list display
 
 usage: selftest_auto.py [T0 T1 ...] [-p Cnn ...]
@@ -111,6 +115,109 @@ class AugExtend(ast.NodeTransformer):
         if isinstance(v, ast.Call) and isinstance(v.func, ast.Attribute) and v.func.attr == "extend" and len(v.args) == 1 \
                 and not v.keywords and isinstance(v.func.value, ast.Name) and v.func.value.id in getattr(self, "lists", ()):
             return ast.AugAssign(target=ast.Name(id=v.func.value.id, ctx=ast.Store()), op=ast.Add(), value=v.args[0])
+        return node
+
+
+class LoopToComp(ast.NodeTransformer):
+    """T8: `acc = []` directly followed by `for x in it: [if c:] acc.append(e)`  ->  `acc = [e for x in it if c]`."""
+    def _block(self, stmts):
+        out = []
+        i = 0
+        while i < len(stmts):
+            st = stmts[i]
+            nxt = stmts[i + 1] if i + 1 < len(stmts) else None
+            tgt = None
+            if isinstance(st, ast.Assign) and len(st.targets) == 1 and isinstance(st.targets[0], ast.Name):
+                tgt = st.targets[0]
+            elif isinstance(st, ast.AnnAssign) and isinstance(st.target, ast.Name) and st.value is not None:
+                tgt = st.target
+            if tgt is not None and isinstance(st.value, ast.List) and not st.value.elts and isinstance(nxt, ast.For) and not nxt.orelse:
+                body = nxt.body
+                cond = None
+                if len(body) == 1 and isinstance(body[0], ast.If) and not body[0].orelse:
+                    cond = body[0].test
+                    body = body[0].body
+                if len(body) == 1 and isinstance(body[0], ast.Expr) and isinstance(body[0].value, ast.Call) \
+                        and ast.unparse(body[0].value.func) == f"{tgt.id}.append" and len(body[0].value.args) == 1 \
+                        and not any(isinstance(n, ast.Name) and n.id == tgt.id for n in ast.walk(nxt.iter)) \
+                        and not any(isinstance(n, (ast.NamedExpr, ast.Yield, ast.Await)) for n in ast.walk(nxt)):
+                    comp = ast.ListComp(elt=body[0].value.args[0],
+                                        generators=[ast.comprehension(target=nxt.target, iter=nxt.iter, ifs=[cond] if cond is not None else [], is_async=0)])
+                    out.append(ast.copy_location(ast.Assign(targets=[ast.Name(id=tgt.id, ctx=ast.Store())], value=comp), st))
+                    i += 2
+                    continue
+            out.append(st)
+            i += 1
+        return out
+
+    def generic_visit(self, node):
+        super().generic_visit(node)
+        for field in ("body", "orelse", "finalbody"):
+            v = getattr(node, field, None)
+            if isinstance(v, list) and v and isinstance(v[0], ast.stmt):
+                setattr(node, field, self._block(v))
+        return node
+
+
+class ReturnElse(ast.NodeTransformer):
+    """T9: `if c: ...return/raise` followed by the rest of the block  ->  `if c: ... else: <rest>`."""
+    def _block(self, stmts):
+        for i, st in enumerate(stmts):
+            if isinstance(st, ast.If) and not st.orelse and st.body and isinstance(st.body[-1], (ast.Return, ast.Raise)) \
+                    and i + 1 < len(stmts) and not any(isinstance(n, (ast.Break, ast.Continue)) for b in st.body for n in ast.walk(b)):
+                rest = self._block(stmts[i + 1:])
+                return stmts[:i] + [ast.copy_location(ast.If(test=st.test, body=st.body, orelse=rest), st)]
+        return stmts
+
+    def visit_FunctionDef(self, node):
+        self.generic_visit(node)
+        doc = node.body[:1] if node.body and isinstance(node.body[0], ast.Expr) and isinstance(node.body[0].value, ast.Constant) else []
+        node.body = doc + self._block(node.body[len(doc):])
+        return node
+
+
+class FlattenElse(ast.NodeTransformer):
+    """T10: `if c: ...return/raise  else: rest`  ->  `if c: ...return/raise` + rest."""
+    def _block(self, stmts):
+        out = []
+        for st in stmts:
+            if isinstance(st, ast.If) and st.orelse and st.body and isinstance(st.body[-1], (ast.Return, ast.Raise, ast.Continue, ast.Break)) \
+                    and not (len(st.orelse) == 1 and isinstance(st.orelse[0], ast.If)):
+                out.append(ast.copy_location(ast.If(test=st.test, body=st.body, orelse=[]), st))
+                out.extend(self._block(st.orelse))
+            else:
+                out.append(st)
+        return out
+
+    def generic_visit(self, node):
+        super().generic_visit(node)
+        for field in ("body", "orelse", "finalbody"):
+            v = getattr(node, field, None)
+            if isinstance(v, list) and v and isinstance(v[0], ast.stmt):
+                setattr(node, field, self._block(v))
+        return node
+
+
+class IfExpToStmt(ast.NodeTransformer):
+    """T11: `x = a if c else b`  ->  `if c: x = a  else: x = b`."""
+    def _block(self, stmts):
+        out = []
+        for st in stmts:
+            if isinstance(st, ast.Assign) and len(st.targets) == 1 and isinstance(st.targets[0], ast.Name) and isinstance(st.value, ast.IfExp):
+                v = st.value
+                out.append(ast.copy_location(ast.If(test=v.test,
+                                                    body=[ast.Assign(targets=[ast.Name(id=st.targets[0].id, ctx=ast.Store())], value=v.body)],
+                                                    orelse=[ast.Assign(targets=[ast.Name(id=st.targets[0].id, ctx=ast.Store())], value=v.orelse)]), st))
+            else:
+                out.append(st)
+        return out
+
+    def generic_visit(self, node):
+        super().generic_visit(node)
+        for field in ("body", "orelse", "finalbody"):
+            v = getattr(node, field, None)
+            if isinstance(v, list) and v and isinstance(v[0], ast.stmt):
+                setattr(node, field, self._block(v))
         return node
 
 
@@ -227,7 +334,8 @@ def transform(name: str, src: str, filename: str) -> str:
         return ast.unparse(ast.parse(src))
     if name == "T1":
         return alpha_rename(src, filename)
-    tr = {"T2": SwapElse, "T3": DeMorgan, "T4": IsNotNone, "T5": TempReturn, "T6": AugExtend}[name]()
+    tr = {"T2": SwapElse, "T3": DeMorgan, "T4": IsNotNone, "T5": TempReturn, "T6": AugExtend, "T8": LoopToComp, "T9": ReturnElse,
+          "T10": FlattenElse, "T11": IfExpToStmt}[name]()
     tree = tr.visit(ast.parse(src))
     ast.fix_missing_locations(tree)
     return ast.unparse(tree)
@@ -266,7 +374,7 @@ def main() -> int:
     ap.add_argument("-p", nargs="*", default=[])
     ap.add_argument("--keep", action="store_true")
     ns = ap.parse_args()
-    names = ns.transforms or ["T0", "T1", "T2", "T3", "T4", "T5", "T6", "T7"]
+    names = ns.transforms or ["T0", "T1", "T2", "T3", "T4", "T5", "T6", "T7", "T8", "T9", "T10", "T11"]
     props = ns.p or PROPS
     bad = 0
     for name in names:
